@@ -78,7 +78,7 @@ class _SI(SFTPServerInterface):
         else:
             fstr = "rb"
         try:
-            f = os.fdopen(fd, fstr)
+            f = os.fdopen(fd, fstr, 0)        # unbuffered: a size change made through the path is seen by this handle at once
         except OSError as e:
             return SFTPServer.convert_errno(e.errno)
         h = _Handle(flags)
